@@ -19,6 +19,86 @@ BuiltinNames == {"len", "puts", "first", "last", "rest", "push", "pop", "get", "
 Utf8Width(cp) == IF cp < 128 THEN 1 ELSE IF cp < 2048 THEN 2 ELSE IF cp < 65536 THEN 3 ELSE 4
 Utf8Len(cps) == FoldLeft(LAMBDA acc, cp : acc + Utf8Width(cp), 0, cps)
 
+
+\* ------------------------------ text helpers --------------------------------
+IsDigit(c) == c >= 48 /\ c <= 57
+AllDigits(cs) == Len(cs) > 0 /\ \A i \in 1..Len(cs) : IsDigit(cs[i])
+\* value of a digit string (at most 18 digits) as an Int64 word
+DigitsWord(cs) == FoldLeft(LAMBDA acc, c : Add(Mul(acc, Ten), FromNat(c - 48)), Zero, cs)
+\* int("..."): optional sign and 1..18 digits -> that integer; anything else is not pinned down
+ParseInt(cs) ==
+  LET neg == Len(cs) > 0 /\ cs[1] = 45
+      ds == IF neg THEN Tail(cs) ELSE cs
+  IN IF AllDigits(ds) /\ Len(ds) <= 18 THEN (IF neg THEN I(Neg(DigitsWord(ds))) ELSE I(DigitsWord(ds))) ELSE AnyV
+\* small natural number of a digit string (at most 6 digits)
+DigitsNat(cs) == FoldLeft(LAMBDA acc, c : acc * 10 + (c - 48), 0, cs)
+Pow10(k) == CASE k = 0 -> 1 [] k = 1 -> 10 [] k = 2 -> 100 [] k = 3 -> 1000 [] k = 4 -> 10000 [] k = 5 -> 100000 [] OTHER -> 1000000
+IndexOf(cs, c) == FoldLeft(LAMBDA acc, i : IF acc = 0 /\ cs[i] = c THEN i ELSE acc, 0, [i \in 1..Len(cs) |-> i])
+\* float("..."): [-]digits[.digits] whose value is a small dyadic -> that float; "NaN", "inf", "-inf";
+\* anything else is not pinned down
+ParseFloat(cs) ==
+  LET neg == Len(cs) > 0 /\ cs[1] = 45
+      body == IF neg THEN Tail(cs) ELSE cs
+      dot == IndexOf(body, 46)
+      ip == IF dot = 0 THEN body ELSE SubSeq(body, 1, dot - 1)
+      fp == IF dot = 0 THEN <<>> ELSE SubSeq(body, dot + 1, Len(body))
+  IN CASE cs = <<78, 97, 78>> -> NaN
+       [] cs = <<105, 110, 102>> -> PInf
+       [] cs = <<45, 105, 110, 102>> -> NInf
+       [] AllDigits(ip) /\ Len(ip) <= 4 /\ (fp = <<>> \/ (AllDigits(fp) /\ Len(fp) <= 5)) /\ (dot = 0 \/ fp # <<>>) ->
+            LET k == Len(fp)
+                num == DigitsNat(fp) * 256
+            IN IF (num % Pow10(k)) # 0 THEN AnyV
+               ELSE LET m == DigitsNat(ip) * 256 + num \div Pow10(k)
+                    IN IF m = 0 THEN (IF neg THEN NZero ELSE PZero) ELSE Dy(IF neg THEN -m ELSE m, 8)
+       [] OTHER -> AnyV
+\* int(float): truncation toward zero on the modelled floats
+FloatToInt(x) ==
+  IF x.c = "dy" THEN IntV(IF x.m < 0 THEN -((-x.m) \div P2(x.e)) ELSE x.m \div P2(x.e))
+  ELSE IF x.c = "nzero" THEN IntV(0) ELSE AnyV
+\* round(x, 0): nearest integer, ties not pinned down
+RoundHalfAway(x) ==
+  IF x.c # "dy" THEN (IF x.c = "oom" THEN OOM ELSE x)
+  ELSE IF x.e = 0 THEN x
+  ELSE LET a == AbsI(x.m)  q == a \div P2(x.e)  r == a % P2(x.e)
+       IN IF 2 * r = P2(x.e) THEN AnyV
+          ELSE LET v == IF 2 * r > P2(x.e) THEN q + 1 ELSE q
+               IN IF v = 0 THEN (IF x.m < 0 THEN NZero ELSE PZero) ELSE F("dy", IF x.m < 0 THEN -v ELSE v, 0)
+IsScalar(cp) == cp <= 1114111 /\ ~(cp >= 55296 /\ cp <= 57343)
+CaseCp(name, c) == IF name = "tolower" THEN (IF c >= 65 /\ c <= 90 THEN c + 32 ELSE c)
+                   ELSE (IF c >= 97 /\ c <= 122 THEN c - 32 ELSE c)
+
+\* ------------------------------ UTF-8 -----------------------------------------
+Utf8EncodeCp(cp) ==
+  IF cp < 128 THEN <<cp >>
+  ELSE IF cp < 2048 THEN <<192 + cp \div 64, 128 + (cp % 64) >>
+  ELSE IF cp < 65536 THEN <<224 + cp \div 4096, 128 + ((cp \div 64) % 64), 128 + (cp % 64) >>
+  ELSE <<240 + cp \div 262144, 128 + ((cp \div 4096) % 64), 128 + ((cp \div 64) % 64), 128 + (cp % 64) >>
+Utf8Encode(cps) == FoldLeft(LAMBDA acc, cp : acc \o Utf8EncodeCp(cp), <<>>, cps)
+\* well-formed UTF-8 only: no overlong forms, no surrogates, nothing above U+10FFFF
+Utf8Decode(bs) ==
+  LET step(acc, b) ==
+        IF ~acc.ok THEN acc
+        ELSE IF acc.need = 0 THEN
+          (CASE b < 128 -> [acc EXCEPT !.out = Append(acc.out, b)]
+             [] b >= 194 /\ b <= 223 -> [acc EXCEPT !.need = 1, !.cp = b - 192, !.min = 128]
+             [] b >= 224 /\ b <= 239 -> [acc EXCEPT !.need = 2, !.cp = b - 224, !.min = 2048]
+             [] b >= 240 /\ b <= 244 -> [acc EXCEPT !.need = 3, !.cp = b - 240, !.min = 65536]
+             [] OTHER -> [acc EXCEPT !.ok = FALSE])
+        ELSE IF b < 128 \/ b > 191 THEN [acc EXCEPT !.ok = FALSE]
+        ELSE LET cp == acc.cp * 64 + (b - 128)
+             IN IF acc.need > 1 THEN [acc EXCEPT !.need = acc.need - 1, !.cp = cp]
+                ELSE IF cp < acc.min \/ ~IsScalar(cp) THEN [acc EXCEPT !.ok = FALSE]
+                ELSE [acc EXCEPT !.need = 0, !.cp = 0, !.out = Append(acc.out, cp)]
+      r == FoldLeft(step, [ok |-> TRUE, out |-> <<>>, need |-> 0, cp |-> 0, min |-> 0], bs)
+  IN [ok |-> r.ok /\ r.need = 0, out |-> r.out]
+
+\* sort is specified for arrays of mutually comparable values
+Sortable(es) ==
+  \/ es = <<>>
+  \/ \A i \in 1..Len(es) : \A j \in 1..Len(es) :
+        LET c == BinOp("<", es[i], es[j]) IN c.k = "bool" /\ (i # j => (c.v \/ BinOp("<", es[j], es[i]).v \/ ValEq(<<>>, es[i], es[j]) = "t"))
+
 BR(x, st) == [x |-> x, st |-> st]
 BErr(name) == Err("builtin:" \o name)
 
@@ -27,7 +107,8 @@ CallBuiltin(name, args, st) ==
       a1 == args[1]  a2 == args[2]  a3 == args[3]
       bad == BR(BErr(name), st)
   IN
-  CASE \E i \in 1..n : Vague(args[i]) -> BR(Unspec, st)    \* an argument the documentation does not pin down
+  CASE \E i \in 1..n : Vague(args[i]) /\ ~(name = "push" /\ i = 2) /\ ~(name = "insert" /\ i = 3) ->
+         BR(Unspec, st)    \* an argument the documentation does not pin down (stored values excepted)
     [] name = "len" ->
          IF n # 1 THEN bad
          ELSE CASE a1.k = "str" -> BR(IntV(Utf8Len(a1.v)), st)
@@ -78,5 +159,75 @@ CallBuiltin(name, args, st) ==
                 [] a1.k = "int" -> BR(S(ToDecimal(a1.v)), st)
                 [] a1.k \in {"null", "float", "char", "byte", "bool", "arr", "map"} -> BR([k |-> "anystr"], st)
                 [] OTHER -> bad
+    [] name = "int" ->
+         IF n # 1 THEN bad
+         ELSE CASE a1.k = "int" -> BR(a1, st)
+                [] a1.k = "str" -> BR(ParseInt(a1.v), st)
+                [] a1.k = "float" -> BR(FloatToInt(a1), st)
+                [] a1.k = "char" -> BR(IntV(a1.v), st)
+                [] a1.k = "byte" -> BR(IntV(a1.v), st)
+                [] a1.k = "bool" -> BR(IntV(IF a1.v THEN 1 ELSE 0), st)
+                [] OTHER -> bad
+    [] name = "float" ->
+         IF n # 1 THEN bad
+         ELSE CASE a1.k = "float" -> BR(a1, st)
+                [] a1.k = "str" -> BR(ParseFloat(a1.v), st)
+                [] a1.k = "int" -> BR(IntToF(a1.v), st)
+                [] a1.k = "char" -> BR(IF a1.v <= MMAX THEN F("dy", a1.v, 0) ELSE OOM, st)
+                [] a1.k = "byte" -> BR(F("dy", a1.v, 0), st)
+                [] a1.k = "bool" -> BR(F("dy", IF a1.v THEN 1 ELSE 0, 0), st)
+                [] OTHER -> bad
+    [] name = "char" ->
+         IF n # 1 THEN bad
+         ELSE CASE a1.k = "char" -> BR(a1, st)
+                [] a1.k = "byte" -> BR(Ch(a1.v), st)
+                [] a1.k = "int" -> BR(IF IsSmall(a1.v) /\ ToInt(a1.v) >= 0 /\ IsScalar(ToInt(a1.v)) THEN Ch(ToInt(a1.v)) ELSE AnyV, st)
+                [] a1.k \in {"float", "str", "bool"} -> BR(AnyV, st)     \* documented kinds, result not pinned down
+                [] OTHER -> bad
+    [] name = "byte" ->
+         IF n # 1 THEN bad
+         ELSE CASE a1.k = "byte" -> BR(a1, st)
+                [] a1.k = "char" -> BR(IF a1.v < 256 THEN By(a1.v) ELSE AnyV, st)
+                [] a1.k = "bool" -> BR(By(IF a1.v THEN 1 ELSE 0), st)
+                [] a1.k = "int" -> BR(IF IsSmall(a1.v) /\ ToInt(a1.v) >= 0 /\ ToInt(a1.v) < 256 THEN By(ToInt(a1.v)) ELSE AnyV, st)
+                [] a1.k \in {"float", "str"} -> BR(AnyV, st)
+                [] OTHER -> bad
+    [] name \in {"tolower", "toupper"} ->
+         IF n # 1 THEN bad
+         ELSE CASE a1.k = "char" -> BR(IF a1.v < 128 THEN Ch(CaseCp(name, a1.v)) ELSE AnyV, st)
+                [] a1.k = "byte" -> BR(IF a1.v < 128 THEN By(CaseCp(name, a1.v)) ELSE AnyV, st)
+                [] a1.k = "str" -> BR(IF \A i \in 1..Len(a1.v) : a1.v[i] < 128
+                                       THEN S(FoldLeft(LAMBDA acc, c : Append(acc, CaseCp(name, c)), <<>>, a1.v))
+                                       ELSE [k |-> "anystr"], st)
+                [] OTHER -> bad
+    [] name = "chars" ->
+         IF n # 1 \/ a1.k # "str" THEN bad
+         ELSE BR(ArrRef(NewId(st)), Alloc(st, [t |-> "arr", v |-> FoldLeft(LAMBDA acc, c : Append(acc, Ch(c)), <<>>, a1.v)]))
+    [] name = "join" ->
+         IF n \notin {1, 2} \/ a1.k # "arr" THEN bad
+         ELSE IF n = 2 /\ a2.k \notin {"str", "char"} THEN bad
+         ELSE IF \E i \in 1..Len(Elems(st, a1)) : Elems(st, a1)[i].k # "char" THEN bad
+         ELSE LET sep == IF n = 1 THEN <<>> ELSE IF a2.k = "str" THEN a2.v ELSE <<a2.v>>
+                  es == Elems(st, a1)
+                  f(acc, i) == IF i = 1 THEN <<es[i].v>> ELSE acc \o sep \o <<es[i].v>>
+              IN BR(S(FoldLeft(f, <<>>, [i \in 1..Len(es) |-> i])), st)
+    [] name = "encode_utf8" ->
+         IF n # 1 \/ a1.k # "str" THEN bad
+         ELSE BR(ArrRef(NewId(st)),
+                 Alloc(st, [t |-> "arr", v |-> FoldLeft(LAMBDA acc, b : Append(acc, By(b)), <<>>, Utf8Encode(a1.v))]))
+    [] name = "decode_utf8" ->
+         IF n # 1 \/ a1.k # "arr" THEN bad
+         ELSE IF \E i \in 1..Len(Elems(st, a1)) : Elems(st, a1)[i].k # "byte" THEN bad
+         ELSE LET d == Utf8Decode(FoldLeft(LAMBDA acc, b : Append(acc, b.v), <<>>, Elems(st, a1)))
+              IN BR(IF d.ok THEN S(d.out) ELSE EObj, st)
+    [] name = "sort" ->
+         IF n # 1 \/ a1.k # "arr" THEN bad
+         ELSE IF ~Sortable(Elems(st, a1)) THEN BR(Unspec, st)
+         ELSE BR(AnyV, SetObj(st, a1.id, SortSeq(Elems(st, a1), LAMBDA x, y : BinOp("<", x, y).v)))
+    [] name = "round" ->
+         IF n # 2 \/ a1.k # "float" \/ a2.k # "int" THEN bad
+         ELSE IF a2.v # Zero \/ a1.c = "oom" THEN BR(IF a1.c = "dy" /\ a1.e = 0 /\ IsSmall(a2.v) /\ ToInt(a2.v) >= 0 /\ ToInt(a2.v) <= 6
+                                                   THEN a1 ELSE Unspec, st)
+         ELSE BR(RoundHalfAway(a1), st)
     [] OTHER -> BR(Unspec, st)
 =============================================================================
